@@ -24,7 +24,11 @@ pub struct Case {
 
 fn model(c: &Case) -> Diag {
     let mut d = c.spec.to_diag();
-    // plain edges only, no boundary-boundary wires (spec parameters guarantee it)
+    // the property's domain: plain edges only (whatever the spec says)
+    for e in d.edges.iter_mut() {
+        e.2 = false;
+    }
+    // no boundary-boundary wires (spec parameters guarantee it)
     let sp: Vec<usize> = (0..d.verts.len()).filter(|&i| d.verts[i].kind != VK::B).collect();
     for raw in &c.extra_bnds {
         if sp.is_empty() {
